@@ -120,6 +120,24 @@ func AlphabetB(full bool) []ops.Op {
 
 // WSetups builds the initial states of the C12 exploration: all subsets (size <= maxSize) of the top-level names,
 // each populated with children x, x_ and d/x.
+// WSubsets returns the name subsets in the same order as WSetups.
+func WSubsets(names []string, maxSize int) [][]string {
+	out := [][]string{}
+	n := len(names)
+	for mask := 1; mask < 1<<n; mask++ {
+		sub := []string{}
+		for i := 0; i < n; i++ {
+			if mask&(1<<i) != 0 {
+				sub = append(sub, names[i])
+			}
+		}
+		if len(sub) <= maxSize {
+			out = append(out, sub)
+		}
+	}
+	return out
+}
+
 func WSetups(names []string, maxSize int) [][]ops.Op {
 	out := [][]ops.Op{}
 	n := len(names)
